@@ -21,6 +21,8 @@ import (
 
 	itutiltypes "github.com/EscanBE/evermint/v12/integration_test_util/types"
 	cpcabi "github.com/EscanBE/evermint/v12/x/cpc/abi"
+	cpctypes "github.com/EscanBE/evermint/v12/x/cpc/types"
+	"github.com/ethereum/go-ethereum/crypto"
 
 	. "verifharness/hx"
 )
@@ -44,7 +46,7 @@ type genTx struct {
 
 var mixedKinds = []string{"transfer", "transfer-fresh", "call-sink", "call-revert", "call-invalid", "call-logger", "store-set", "store-clear",
 	"create-ok", "create-ok", "create-fail", "clock", "multi-touch", "cpc-delegate", "cpc-withdraw", "cpc-erc20", "cosmos-send", "cosmos-delegate",
-	"cpc-new-erc20", "create-calls-cpc"}
+	"cpc-new-erc20", "create-calls-cpc", "call-prospective-cpc"}
 
 var malKinds = []string{"price-below-floor", "stale-nonce", "future-nonce", "wrong-chain-id", "gas-below-intrinsic", "value-above-balance"}
 
@@ -220,6 +222,10 @@ func (w *world) genMixed(r *Rng) *genTx {
 		value = big.NewInt(int64(r.Intn(50)))
 	case "create-fail":
 		data, gasExec = []byte{0xfe}, 40000
+	case "call-prospective-cpc":
+		// the address the NEXT contract deployed by message will get (or the one after): nothing is registered there
+		a := crypto.CreateAddress(cpctypes.CpcModuleAddress, cpcModuleSeq(c)+uint64(r.Intn(2)))
+		to, data, gasExec = &a, w.erc20Pack([]string{"symbol", "name", "decimals"}[r.Intn(3)]), 60000
 	case "create-calls-cpc":
 		// the constructor calls a custom precompiled contract and installs its answer as code
 		tg := w.erc20Cpc
